@@ -248,9 +248,44 @@ def _unquote_coq(s):
     return s
 
 
-def coq_eval(tag, imports, exprs, shard=400, timeout=900, defs=""):
-    """Evaluate Coq expressions of type string with vm_compute; returns list of Python str
-    (or None where evaluation failed).  exprs: list of Coq terms."""
+def _parse_coq_string_list(out):
+    """Parse the `= ["a"; "b"]` printed by Eval for a list of strings."""
+    k = out.find("= [")
+    if k < 0:
+        if re.search(r"=\s*\[\s*\]", out):
+            return []
+        return None
+    i = k + 3
+    vals = []
+    n = len(out)
+    while i < n:
+        c = out[i]
+        if c == '"':
+            i += 1
+            buf = []
+            while i < n:
+                if out[i] == '"':
+                    if i + 1 < n and out[i + 1] == '"':
+                        buf.append('"')
+                        i += 2
+                        continue
+                    i += 1
+                    break
+                buf.append(out[i])
+                i += 1
+            vals.append("".join(buf))
+        elif c == "]":
+            break
+        else:
+            i += 1
+    return vals
+
+
+def coq_eval(tag, imports, exprs, shard=None, timeout=900, defs=""):
+    """Evaluate Coq expressions of type string with vm_compute (one Eval per shard over the
+    list of all its expressions); returns (list of Python str or None, list of error texts)."""
+    if not exprs:
+        return [], []
     mods = sorted(set(re.findall(r"\b((?:Core|Gen|Model|Proofs|Props)\.[A-Za-z0-9_]+)", imports)))
     if mods:
         ok, log = coq_make([m.replace(".", "/") + ".vo" for m in mods])
@@ -259,20 +294,19 @@ def coq_eval(tag, imports, exprs, shard=400, timeout=900, defs=""):
     d = os.path.join(BUILD, "cases", tag + "_%d" % os.getpid())
     shutil.rmtree(d, ignore_errors=True)
     os.makedirs(d)
-    shards = [exprs[i:i + shard] for i in range(0, len(exprs), shard)]
+    per = max(1, min(shard or 400, -(-len(exprs) // NPROC)))
+    shards = [exprs[i:i + per] for i in range(0, len(exprs), per)]
     names = []
     for k, sh_exprs in enumerate(shards):
         name = "cases_%s_%d" % (re.sub(r"\W", "_", tag), k)
-        lines = [imports, "Set Printing Width 10000000.", "Set Printing Depth 10000000.", defs]
-        for e in sh_exprs:
-            lines.append("Eval vm_compute in (%s)." % e)
+        lines = [imports, "Set Printing Width 2000000000.", "Set Printing Depth 2000000000.", defs,
+                 "Definition the_cases : list string := ["]
+        lines.append(";\n".join("(%s)" % e for e in sh_exprs))
+        lines.append("]%list.")
+        lines.append("Eval vm_compute in the_cases.")
         with open(os.path.join(d, name + ".v"), "w") as f:
             f.write("\n".join(lines) + "\n")
         names.append(name)
-    procs = []
-    results = []
-    env = dict(os.environ)
-    # run shards in parallel, bounded
     pending = list(enumerate(names))
     running = []
     outs = {}
@@ -286,22 +320,13 @@ def coq_eval(tag, imports, exprs, shard=400, timeout=900, defs=""):
         out, _ = p.communicate()
         outs[k] = (p.returncode, out)
     errors = []
+    results = []
     for k, sh_exprs in enumerate(shards):
         rc, out = outs[k]
-        vals = []
-        cur = None
-        for line in out.split("\n"):
-            m = EVAL_RE.match(line)
-            if m and cur is None:
-                cur = m.group(1)
-            elif line.strip().startswith(": ") and cur is not None:
-                vals.append(_unquote_coq(cur))
-                cur = None
-            elif cur is not None:
-                cur += "\n" + line
-        if rc != 0 or len(vals) != len(sh_exprs):
-            errors.append("shard %d rc=%s got %d/%d: %s" % (k, rc, len(vals), len(sh_exprs), out[-1500:]))
-            vals = vals[:len(sh_exprs)] + [None] * (len(sh_exprs) - len(vals))
+        vals = _parse_coq_string_list(out) if rc == 0 else None
+        if vals is None or len(vals) != len(sh_exprs):
+            errors.append("shard %d rc=%s got %s/%d: %s" % (k, rc, None if vals is None else len(vals), len(sh_exprs), out[-1500:]))
+            vals = [None] * len(sh_exprs)
         results.extend(vals)
     shutil.rmtree(d, ignore_errors=True)
     return results, errors
